@@ -1519,6 +1519,54 @@ def signal_table_units():
 ALL.append(signal_table_units)
 
 
+# ---- C12: the event store hands replay EVERY event of the workflow after the given sequence
+def _events_for_workflow_post(ctx):
+    """get_events_for_workflow(w, s): one SELECT on `events` without LIMIT whose WHERE is exactly workflow_id = w AND sequence > s;
+    the returned list has one entry per selected row (nothing filtered, truncated or added afterwards)."""
+    I = ctx.I
+    if ctx.exc is not None:
+        return [("no-exception", FALSE)]
+    sels = sql_effects(ctx, "select", "events")
+    goals = [("one-select", z3.BoolVal(len(sels) == 1))]
+    if len(sels) != 1:
+        return goals
+    stmt = sels[0].data["stmt"]
+    goals.append(("no-limit", z3.BoolVal(stmt.limit is None)))
+    fa = [e for e in ctx.st.effects if e.kind == "sql_fetchall"]
+    goals.append(("whole-result-set-read", z3.BoolVal(len(fa) == 1)))
+    if len(fa) != 1:
+        return goals
+    tab, sat = fa[0].data["tab"], fa[0].data["sat"]
+    r = fresh_int("anyrow")
+    w, s0 = ctx.args["workflow_id"].t, I.ops.as_int(ctx.args["from_sequence"])
+    want = z3.And(z3.Select(tab.exists, r), z3.Select(tab.cols["workflow_id"], r) == w, z3.Select(tab.cols["sequence"], r) > s0)
+    goals.append(("selects-exactly-the-workflows-later-events", sat(r) == want))
+    res = ctx.result
+    segs = I.ops.segments(res) if type(res).__name__ == "SList" else None
+    segs = [sg for sg in (segs or []) if not (isinstance(sg, tuple) and not sg[1])]  # drop empty literal parts
+    keys = fa[0].data["keys"]
+    whole = bool(segs) and len(segs) == 1 and not isinstance(segs[0], tuple) and segs[0].lid == keys.lid and z3.is_true(z3.simplify(segs[0].cond))
+    goals.append(("one-event-per-selected-row", z3.BoolVal(whole) if not whole else segs[0].hi == I.ops.list_len(keys)))
+    return goals
+
+
+def event_store_units():
+    reg = sql_registry()
+    reg.contracts["*._get_connection"] = lambda I, a, k: I.st.ghost.setdefault("the_conn", SQL.new_connection(I))
+
+    def row_to_event(I, a, k):  # assumed: one Event per row (its fields: C12 replay units work on arbitrary events)
+        return T.new_symbolic(I, "Event", "event")
+
+    reg.contracts["*._row_to_event"] = row_to_event
+    ES = "stabilize.events.store.sqlite.events:SqliteEventStoreMixin."
+    return [Unit(prop="*", name="L1/SqliteEventStore.get_events_for_workflow", func=ES + "get_events_for_workflow", registry=reg, names=STATUS_NAMES,
+                 replayable=False, self_type=("obj", "SqliteEventStore"), params=[("workflow_id", ("str",)), ("from_sequence", ("int",))],
+                 obligations=[Obl("C12/event-store/get_events_for_workflow", _events_for_workflow_post, when="any")])]
+
+
+ALL.append(event_store_units)
+
+
 # ---- upsert_task (C07 G-task) and the task row round trip (C19)
 TASK_FIELDS = ["id", "name", "implementing_class", "status", "start_time", "end_time", "stage_start", "stage_end", "loop_start", "loop_end",
                "task_exception_details"]
